@@ -214,7 +214,10 @@ class _LoopBase:
             for f in self.spec.facts(ns):
                 cur().assume(f)
         if not self.spec.forall:
-            return self.spec.invariant(ns)
+            r = self.spec.invariant(ns)
+            if isinstance(r, (list, tuple)):
+                return wrap_bool(tm.And(*[B(x) for x in r]))
+            return r
         c = cur()
         if mode == "prove":
             ns.__dict__["q"] = Namespace({n: sp.fresh(c.fresh_name(f"L{self.k}.any.{n}")) for n, sp in self.spec.forall.items()})
